@@ -102,6 +102,16 @@ class VocabInterp(StringInterp):
         for c in ast.walk(e):
             if isinstance(c, ast.Call):
                 recv, name = call_method(c)
+                if isinstance(recv, ast.Name) and name == "append" and isinstance(st.get(recv.id), tuple) and st[recv.id][0] == "$list" and c.args \
+                        and isinstance(c.args[0], ast.Tuple) and len(c.args[0].elts) == 3:
+                    # a row (prefix, field width, values) of a table-driven vocabulary
+                    pe, we, ve = c.args[0].elts
+                    ps = self.strings(pe, st)
+                    d = self.iter_domain(ve, st)
+                    if ps is None or len(ps) != 1 or d is None or not (isinstance(we, ast.Constant) and isinstance(we.value, int) and not isinstance(we.value, bool)):
+                        raise AnalysisError(f"{self.fi.qualname}: `{short(c)}`: part table row outside the interpreter's model")
+                    st[recv.id] = ("$list", st[recv.id][1] + (("$row", next(iter(ps)), we.value, d),))
+                    continue
                 if isinstance(recv, ast.Name) and name == "append" and isinstance(st.get(recv.id), tuple) and st[recv.id][0] == "$list" and c.args:
                     d = self.iter_domain(c.args[0], st)
                     if d is None:
@@ -112,6 +122,40 @@ class VocabInterp(StringInterp):
     def for_iter(self, node, st):
         return st
 
+    def strings(self, e, st):
+        # `'-'.join(f'{prefix}_{value:0{width}}' for (prefix, width, _), value in zip(rows, combination))`: one piece per row of the part table
+        if isinstance(e, ast.Call) and call_method(e)[1] == "join" and isinstance(call_method(e)[0], ast.Constant) and isinstance(call_method(e)[0].value, str) \
+                and len(e.args) == 1 and isinstance(e.args[0], (ast.GeneratorExp, ast.ListComp)) and len(e.args[0].generators) == 1 and not e.args[0].generators[0].ifs:
+            g = e.args[0].generators[0]
+            it, tg = g.iter, g.target
+            if isinstance(it, ast.Call) and isinstance(it.func, ast.Name) and it.func.id == "zip" and len(it.args) == 2 and all(isinstance(a, ast.Name) for a in it.args) \
+                    and isinstance(tg, ast.Tuple) and len(tg.elts) == 2 and isinstance(tg.elts[0], ast.Tuple) and len(tg.elts[0].elts) == 3 \
+                    and all(isinstance(x, ast.Name) for x in tg.elts[0].elts) and isinstance(tg.elts[1], ast.Name):
+                rows, comb = st.get(it.args[0].id), st.get(it.args[1].id)
+                if isinstance(rows, tuple) and rows and rows[0] == "$list" and isinstance(comb, tuple) and comb and comb[0] == "$list" \
+                        and all(isinstance(r, tuple) and r and r[0] == "$row" for r in rows[1]) and len(comb[1]) == len(rows[1]):
+                    pn, wn, _vn = (x.id for x in tg.elts[0].elts)
+                    val = tg.elts[1].id
+                    sep = call_method(e)[0].value
+                    acc = ()
+                    saved_lv, saved_int = dict(self.loopvars), dict(getattr(self, "int_locals", {}))
+                    try:
+                        for i, (row, dom) in enumerate(zip(rows[1], comb[1])):
+                            st2 = dict(st)
+                            st2[pn] = frozenset([row[1]])
+                            self.int_locals = {**saved_int, wn: row[2]}
+                            self.loopvars = {**saved_lv, val: dom}
+                            piece = self.strings(e.args[0].elt, st2)
+                            if piece is None or len(piece) != 1:
+                                return None
+                            if i and sep:
+                                acc = acc + (("lit", sep),)
+                            acc = acc + next(iter(piece))
+                    finally:
+                        self.loopvars, self.int_locals = saved_lv, saved_int
+                    return frozenset([acc])
+        return super().strings(e, st)
+
     def for_bind(self, node, st):
         st = super().for_bind(node, st)
         it = node.iter
@@ -120,6 +164,17 @@ class VocabInterp(StringInterp):
             if isinstance(node.target, ast.Name):
                 st[node.target.id] = st[it.args[0].value.id]
             return st
+        # product over the value lists of a part table: `itertools.product(*[values for _, _, values in rows])`
+        if isinstance(it, ast.Call) and attr_chain(it.func) == ["itertools", "product"] and len(it.args) == 1 and isinstance(it.args[0], ast.Starred) \
+                and isinstance(it.args[0].value, (ast.ListComp, ast.GeneratorExp)) and len(it.args[0].value.generators) == 1:
+            lc = it.args[0].value
+            g = lc.generators[0]
+            rows = st.get(g.iter.id) if isinstance(g.iter, ast.Name) else None
+            if isinstance(rows, tuple) and rows and rows[0] == "$list" and all(isinstance(r, tuple) and r and r[0] == "$row" for r in rows[1]) and not g.ifs \
+                    and isinstance(g.target, ast.Tuple) and len(g.target.elts) == 3 and all(isinstance(x, ast.Name) for x in g.target.elts) \
+                    and isinstance(lc.elt, ast.Name) and lc.elt.id == g.target.elts[2].id and isinstance(node.target, ast.Name):
+                st[node.target.id] = ("$list", tuple(r[3] for r in rows[1]))
+                return st
         d = self.iter_domain(it, st)
         if d is not None and isinstance(node.target, ast.Name):
             self.loopvars[node.target.id] = d
